@@ -78,7 +78,7 @@ def corpus():
          {'kind': 'setcookie', 'input': hx('/; Max-Age=abc')},                                            # was: underflow
          {'kind': 'percent', 'input': hx('/%FF')}]
     W += [{'kind': 'url', 'tid': t, 'input': hx(s)} for t in URL_EXT for s in ('', 'a', 'a=1', 'f=1&g=2', 'b=x&c=y', '=', '&', 'a=1=2', 'a=%')]
-    return [{'case': w} for w in W]
+    return [{'case': w} for w in W] + edge_cases()
 
 
 def generate(rng, tier):
@@ -86,8 +86,42 @@ def generate(rng, tier):
     return [mk(rng) for _ in range(n)]
 
 
+def strings_utf8(o):
+    """every {"s": hex} / {"f": hex} in a canonical value is valid UTF-8"""
+    if isinstance(o, dict):
+        for k, x in o.items():
+            if k in ('s', 'f') and isinstance(x, str):
+                try: bytes.fromhex(x).decode('utf-8')
+                except (UnicodeDecodeError, ValueError): return False
+            elif not strings_utf8(x): return False
+    elif isinstance(o, list): return all(strings_utf8(x) for x in o)
+    return True
+
+
+EDGE = [b'"', b'""', b'"x', b'x"', b'"""', b'%', b'%4', b'%zz', b'%E7%8B', b'%80', b'%C0%AF', b'=', b';', b'; ', b'&', b',', b',,', b' ', b'', b'%00', b'+', b'\\', b'%22', b'a%FF']
+
+
+def edge_cases():
+    out = []
+    for e in EDGE:
+        try: e.decode('utf-8')
+        except UnicodeDecodeError: continue
+        for tmpl in (b'a=%s', b'a=%s; tok=x', b'a=1; tok=%s; n=5', b'a=1; tok=%s', b'%s=1', b'a=1; %s'):
+            out.append({'case': {'kind': 'cookie', 'tid': 0, 'ty': c11.CAT[0], 'input': (tmpl % e).hex()}, 'stream': 'edge'})
+        for tmpl in (b'id=1&name=%s', b'name=%s&id=1', b'name=%s', b'%s=1&id=2', b'id=%s&name=x'):
+            out.append({'case': {'kind': 'url', 'tid': 0, 'ty': c09.CAT[0], 'input': (tmpl % e).hex()}, 'stream': 'edge'})
+        for tmpl in (b's=%s&t=x', b'v=%s&n=1', b'v=a,%s&n=1,2', b'c=%s&i=1', b'w=%s&z=1'):
+            tid = {b's': 2, b'v': 4, b'c': 6, b'w': 9}[tmpl[:1]]
+            out.append({'case': {'kind': 'url', 'tid': tid, 'ty': c09.CAT[tid], 'input': (tmpl % e).hex()}, 'stream': 'edge'})
+        out.append({'case': {'kind': 'multipart', 'tid': 3, 'fields': c10.FIELDS[3], 'input': (b'--B\r\nContent-Disposition: form-data; name="x"\r\n\r\n' + e + b'\r\n--B--\r\n').hex()}, 'stream': 'edge'})
+        out.append({'case': {'kind': 'multipart', 'tid': 3, 'fields': c10.FIELDS[3], 'input': (b'--B\r\nContent-Disposition: form-data; name=' + e + b'\r\n\r\nv\r\n--B--\r\n').hex()}, 'stream': 'edge'})
+        out.append({'case': {'kind': 'percent', 'input': (b'/' + e.replace(b' ', b'')).hex()}, 'stream': 'edge'})
+    return out
+
+
 def judge(case, out, m):
     v = []
+    if 'value' in out and not strings_utf8(out['value']): v.append(('violation', f'{case["kind"]} decoder yielded a string that is not UTF-8 for {unhx(case["input"])[:60]!r}'))
     if 'panic' in out or 'abort' in out or 'hang' in out or out.get('outcome') in ('panic', 'abort'):
         return [('violation', f'{case["kind"]} decoder panicked / aborted / hung on {unhx(case["input"])[:60]!r}: {str(out)[:120]}')]
     oc = out.get('outcome')
